@@ -26,6 +26,10 @@ pub enum End {
     ClientAbort,
     /// stays open until its session goes
     KeepOpen,
+    /// after the planned transfers the destination stops reading, the client uploads this
+    /// many more bytes into the stalled tunnel, then the destination resets: only what the
+    /// destination's socket accepted has been relayed
+    StalledHostReset(usize),
 }
 
 #[derive(Clone, Debug, Serialize, Deserialize)]
@@ -62,8 +66,8 @@ impl Scenario for Metrics {
 
     fn budget(&self, tier: Tier) -> u64 {
         match tier {
-            Tier::Quick => 4_000,
-            Tier::Thorough => 300_000,
+            Tier::Quick => 30_000,
+            Tier::Thorough => 2_500_000,
         }
     }
 
@@ -83,7 +87,8 @@ impl Scenario for Metrics {
                 }
                 2..=5 if !open.is_empty() => {
                     let s = *rng.pick(&open);
-                    let end = match rng.below(6) {
+                    let end = match rng.below(7) {
+                        6 => End::StalledHostReset(rng.size(20_000, 300_000) as usize),
                         0 => End::HostReset,
                         1 => End::ClientAbort,
                         2 => End::KeepOpen,
@@ -319,7 +324,7 @@ async fn run(plan: MPlan) -> Obs {
                         addr,
                         HostPlan {
                             outcome: if *connect_fails { ConnectOutcome::Refused } else { ConnectOutcome::Ok },
-                            to_host_cap: 1 << 20,
+                            to_host_cap: if matches!(end, End::StalledHostReset(_)) { 8 * 1024 } else { 1 << 20 },
                             from_host_cap: 1 << 20,
                             ..HostPlan::default()
                         },
@@ -391,6 +396,30 @@ async fn run(plan: MPlan) -> Obs {
                             sess.tunnels_open -= 1;
                         }
                         End::HostReset => {
+                            hc.reset();
+                            while let Some(Ok(_)) = body.data().await {}
+                            model.tcp -= 1;
+                            sess.tunnels_open -= 1;
+                        }
+                        End::StalledHostReset(extra) => {
+                            let before = hc.totals().0;
+                            let more = pattern(plan.seed ^ 0xe7 ^ k as u64, 0, *extra);
+                            tx.reserve_capacity(more.len());
+                            let mut off = 0;
+                            while off < more.len() {
+                                match tokio::time::timeout(Duration::from_millis(20), std::future::poll_fn(|cx| tx.poll_capacity(cx))).await {
+                                    Ok(Some(Ok(n))) if n > 0 => {
+                                        let n = n.min(more.len() - off);
+                                        if tx.send_data(Bytes::copy_from_slice(&more[off..off + n]), false).is_err() {
+                                            break;
+                                        }
+                                        off += n;
+                                    }
+                                    _ => break,
+                                }
+                            }
+                            tokio::time::sleep(Duration::from_millis(100)).await;
+                            model.up_h2 += hc.totals().0 - before;
                             hc.reset();
                             while let Some(Ok(_)) = body.data().await {}
                             model.tcp -= 1;
@@ -474,6 +503,23 @@ async fn run(plan: MPlan) -> Obs {
                         End::ClientAbort => {
                             peer.reset();
                             cooperative_host(hc.clone());
+                            model.tcp -= 1;
+                            model.sessions_h1 -= 1;
+                            sess.open = false;
+                        }
+                        End::StalledHostReset(extra) => {
+                            let before = hc.totals().0;
+                            let more = pattern(plan.seed ^ 0xe7 ^ k as u64, 0, *extra);
+                            let _ = tokio::time::timeout(Duration::from_millis(100), peer.write_all(&more)).await;
+                            tokio::time::sleep(Duration::from_millis(100)).await;
+                            model.up_h1 += hc.totals().0 - before;
+                            hc.reset();
+                            loop {
+                                match peer.read(4096).await {
+                                    PeerRead::Data(_) => {}
+                                    _ => break,
+                                }
+                            }
                             model.tcp -= 1;
                             model.sessions_h1 -= 1;
                             sess.open = false;
